@@ -12,11 +12,17 @@
       every reported parameter is read from the very leaf whose plan starts from its own
       current values;
     - [get_named_params]: no reported name is a proper in-order sub-name of another one
-      ([nform_lit]).
+      ([nform_lit]);
+    - acceptable proposals are accepted (last part of the file, [mid_kw_accept]): a forward
+      traversal of [Midline.set_params] for a keyword-only call: every keyword dict a leaf
+      receives binds only values of the call's keywords under names prefixed by routing words
+      ([Fr]); a spread look-up therefore never returns a distribution value, and the keyword of
+      a distribution name reaches every leaf of every sub-model unchanged ([Tp], [dist_lk_exact]).
     New file; nothing existing is changed. *)
 From LymphModel Require Import Base States Linalg Graph Transition Observation Dist Unilateral Models Params
   ParamsStatements ParamsLemmas ParamsProofs ParamsBilateral ParamsMidline ParamsMidlineMore
   Safe ParamsMidlineSafe Named NamedProofs NamedMidline.
+From LymphModel Require SafeProofs SafeMidline.
 From Coq Require Import Lia.
 Local Open Scope nat_scope.
 Local Open Scope string_scope.
@@ -715,4 +721,651 @@ Proof.
   split; [intros [H|[]]; discriminate H|]. split; [vm_compute; reflexivity|].
   split; [intros H; apply H; [left; reflexivity | vm_compute; left; reflexivity]|].
   cbv zeta. split; [vm_compute; reflexivity|]. split; vm_compute; reflexivity.
+Qed.
+
+(** * Acceptable literal-subset proposals are accepted (forward direction) *)
+(** ** keyword dicts derived from the call's keywords: every binding comes from a keyword
+       whose name is the key prefixed by routing words *)
+Definition routing : list string := ["ipsi"; "contra"; "noext"; "ext"; "central"; "unknown"].
+Definition Fr (kw kw' : kwargs) : Prop :=
+  NoDup (map fst kw') /\
+  forall K v, kw_get K kw' = Some v -> exists P, Forall (fun w => In w routing) P /\ kw_get (P ++ K) kw = Some v.
+
+Lemma Fr_refl kw : NoDup (map fst kw) -> Fr kw kw.
+Proof. intros H. split; [exact H|]. intros K v Hv. exists []. split; [constructor | exact Hv]. Qed.
+Lemma Fr_step kw kw' name K v : Fr kw kw' -> In name routing -> kw_get (name :: K) kw' = Some v ->
+  exists P, Forall (fun w => In w routing) P /\ kw_get (P ++ K) kw = Some v.
+Proof.
+  intros [_ H] Hn Hv. destruct (H _ _ Hv) as (P & HP & Hk). exists (P ++ [name]). split.
+  - apply Forall_app. split; [exact HP | constructor; [exact Hn | constructor]].
+  - rewrite <- app_assoc. exact Hk.
+Qed.
+Lemma Fr_obj kw kw' X name split glob : Fr kw kw' -> ~ In "" X -> In name X -> In name routing ->
+  unflatten_and_split kw' X = (split, glob) -> Fr kw (obj_kwargs name split glob).
+Proof.
+  intros HF He Hin Hr Hu. split; [apply (obj_kwargs_NoDup kw' X); exact Hu|]. intros K v Hv.
+  rewrite (obj_kwargs_lookup kw' X name K split glob He Hu Hin) in Hv. unfold eff in Hv.
+  rewrite !(kw_last_NoDup _ _ (proj1 HF)) in Hv. destruct (kw_get (name :: K) kw') as [w|] eqn:E.
+  - injection Hv as <-. apply (Fr_step kw kw' name K w HF Hr E).
+  - destruct (mem (head_of K) X); [discriminate|]. apply (proj2 HF), Hv.
+Qed.
+Lemma Fr_glob kw kw' X split glob : Fr kw kw' -> ~ In "" X -> unflatten_and_split kw' X = (split, glob) -> Fr kw glob.
+Proof.
+  intros HF He Hu. split; [apply (glob_lookup kw' X [] split glob He Hu)|]. intros K v Hv.
+  destruct (glob_lookup kw' X K split glob He Hu) as [Hg _]. rewrite Hg in Hv. destruct (mem (head_of K) X); [discriminate|].
+  rewrite (kw_last_NoDup _ _ (proj1 HF)) in Hv. apply (proj2 HF), Hv.
+Qed.
+Lemma Fr_side kw kw' ikw ckw : Fr kw kw' -> side_kwargs kw' = (ikw, ckw) -> Fr kw ikw /\ Fr kw ckw.
+Proof.
+  intros HF Hs. unfold side_kwargs in Hs. destruct (unflatten_and_split kw' ["ipsi"; "contra"]) as [split glob] eqn:Hu.
+  injection Hs as <- <-. split; apply (Fr_obj kw kw' ["ipsi"; "contra"] _ split glob HF not_empty_in_sides); try exact Hu; cbn; tauto.
+Qed.
+Lemma Fr_nested kw side split glob nsplit ng : NoDup (map fst kw) -> (side = "noext" \/ side = "ext") ->
+  unflatten_and_split kw X4 = (split, glob) -> unflatten_and_split (sub_kwargs side split) ["contra"] = (nsplit, ng) ->
+  Fr kw (obj_kwargs "contra" nsplit glob).
+Proof.
+  intros Hnd Hside Hu Hun. assert (Hs : In side X4) by (destruct Hside as [-> | ->]; cbn; tauto).
+  destruct (glob_lookup kw X4 [] split glob not_empty_X4 Hu) as [_ Hgnd].
+  assert (Hcn : ~ In "" ["contra"]) by (cbn; intuition discriminate).
+  split; [apply kw_update_NoDup, Hgnd|]. intros K v Hv. unfold obj_kwargs in Hv.
+  destruct (sub_kwargs_lookup (sub_kwargs side split) ["contra"] "contra" K nsplit ng Hcn Hun (or_introl eq_refl)) as [Hsub Hsnd].
+  destruct (sub_kwargs_lookup kw X4 side ("contra" :: K) split glob not_empty_X4 Hu Hs) as [Hsub2 Hsnd2].
+  rewrite kw_get_update, kw_get_rev_NoDup in Hv by exact Hsnd. rewrite Hsub, kw_last_NoDup in Hv by exact Hsnd2.
+  rewrite Hsub2, (kw_last_NoDup _ _ Hnd) in Hv.
+  destruct (kw_get (side :: "contra" :: K) kw) as [w|] eqn:E.
+  - injection Hv as <-. exists [side; "contra"]. split; [|exact E].
+    constructor; [destruct Hside as [-> | ->]; cbn; tauto | constructor; [cbn; tauto | constructor]].
+  - destruct (glob_lookup kw X4 K split glob not_empty_X4 Hu) as [Hg _]. rewrite Hg in Hv. destruct (mem (head_of K) X4); [discriminate|].
+    rewrite (kw_last_NoDup _ _ Hnd) in Hv. exists []. split; [constructor | exact Hv].
+Qed.
+
+Lemma routing_reserved w : In w routing -> In w reserved.
+Proof. unfold routing. cbn. intuition. Qed.
+Lemma app_eq_two1 {A} (P : list A) x a b : P ++ [x] = [a; b] -> P = [a] /\ x = b.
+Proof.
+  destruct P as [|p1 [|p2 P]]; cbn; intros E; try discriminate.
+  - injection E as -> ->. auto.
+  - injection E as _ _ E. destruct P; discriminate.
+Qed.
+Lemma app_eq_two2 {A} (P : list A) x y a b : P ++ [x; y] = [a; b] -> P = [] /\ x = a /\ y = b.
+Proof.
+  destruct P as [|p1 P]; cbn; intros E.
+  - injection E as -> ->. auto.
+  - injection E as _ E. destruct P as [|p2 P]; [discriminate|]. injection E as _ E. destruct P; discriminate.
+Qed.
+
+(** every value a plan of spread parameters can take passes the range check *)
+Lemma all_unit_plan_ok lk (ps : list (path * Qc)) :
+  (forall k old, In (k, old) ps -> in_unit old = true /\ forall v, lk k = Some v -> exists q, v = V q /\ in_unit q = true) ->
+  exists qs, all_unit (plan lk ps []) = Some qs /\ forallb in_unit qs = true.
+Proof.
+  induction ps as [|[k old] r IH]; intros H; [exists []; split; reflexivity|].
+  destruct IH as (qs & Hq & Hu); [intros k' old' Hin; apply H; right; exact Hin|].
+  destruct (H k old (or_introl eq_refl)) as [Ho Hv]. cbn [plan hd_error tl all_unit]. rewrite Hq.
+  destruct (lk k) as [v|] eqn:E.
+  - destruct (Hv v eq_refl) as (q & -> & Hqu). cbn [pick check_unit]. rewrite Hqu. exists (q :: qs). split; [reflexivity|]. cbn [forallb]. rewrite Hqu, Hu. reflexivity.
+  - cbn [pick val_or check_unit]. rewrite Ho. exists (old :: qs). split; [reflexivity|]. cbn [forallb]. rewrite Ho, Hu. reflexivity.
+Qed.
+
+Section Forward.
+  Variables (ml : midline) (kw : kwargs).
+  Hypothesis Hsafe : m_names_ok ml = true.
+  Hypothesis Hnd : NoDup (map fst kw).
+  Hypothesis Hkeys : forall c, In c (map fst kw) -> nform ml c.
+  Hypothesis Hmk : In ["mixing"] (map fst kw) -> ~ In "mixing" (dkw ml).
+  Hypothesis Hunit : forall c v, In (c, v) kw -> ~ In c (map fst (u_dist_items (ml_ei ml))) -> exists q, v = V q /\ in_unit q = true.
+  Let ei := ml_ei ml.
+  Let Hok' : mid_names_ok ml = true := safe_names_ok_mid ml Hsafe.
+  Let Hei : u_names_ok ei = true. Proof. apply (m_ok_parts ml Hok'). Qed.
+
+  Lemma spread_hit kwL n s v : Fr kw kwL -> EN ei n -> u_lk kwL [n; s] = Some v -> exists q, v = V q /\ in_unit q = true.
+  Proof.
+    intros HF Hn Hv. unfold u_lk in Hv. rewrite !(kw_last_NoDup _ _ (proj1 HF)) in Hv.
+    assert (Hhit : forall K, (K = [n; s] \/ K = [s]) -> kw_get K kwL = Some v -> exists q, v = V q /\ in_unit q = true).
+    { intros K HK Hg. destruct (proj2 HF K v Hg) as (P & HP & Hk). apply (Hunit (P ++ K) v (kw_get_Some_In _ _ _ Hk)).
+      intros HD. destruct (D_key _ _ HD) as (t & k' & E & Ht & _). destruct HK as [-> | ->].
+      - apply app_eq_two2 in E. destruct E as (_ & -> & _). exact (EN_TS_disj ei Hei _ Hn Ht).
+      - apply app_eq_two1 in E. destruct E as (-> & _). inversion HP as [|? ? Hr _]; subst.
+        exact (in_reserved_not_tstage ei t Hei (routing_reserved _ Hr) Ht). }
+    destruct (kw_get [n; s] kwL) as [w|] eqn:E1.
+    - injection Hv as <-. apply (Hhit [n; s]); [left; reflexivity | exact E1].
+    - apply (Hhit [s]); [right; reflexivity | exact Hv].
+  Qed.
+
+  Definition like (u : uni) : Prop := SafeMidline.like_ei ml u.
+  Definition evalid (u : uni) : Prop := forallb edge_vals_ok (u_edges u) = true.
+  Definition ud (u : uni) : nat * list (string * dist) := (u_maxt u, u_dists u).
+
+  Lemma sel_keys_form sel u k : (sel = T \/ sel = L) -> like u -> In k (map fst (u_sel_items sel u)) -> exists n s, k = [n; s] /\ EN ei n.
+  Proof.
+    intros Hsel (_ & HT & HL & _) Hk. destruct Hsel as [-> | ->].
+    - change (u_sel_items T u) with (u_tumor_items u) in Hk. rewrite HT in Hk. apply (SafeMidline.TK_form ml k Hk).
+    - change (u_sel_items L u) with (u_lnl_items u) in Hk. rewrite HL in Hk. apply (SafeMidline.LK_form ml k Hk).
+  Qed.
+
+  Lemma spread_plan_ok sel u kwL : (sel = T \/ sel = L) -> Fr kw kwL -> like u -> evalid u ->
+    exists qs, all_unit (plan (u_lk kwL) (u_sel_items sel u) []) = Some qs /\ forallb in_unit qs = true.
+  Proof.
+    intros Hsel HF Hl Hv. apply all_unit_plan_ok. intros k old Hin. split.
+    - pose proof (sel_params_vals_unit (u_tri u) sel (u_edges u) Hv) as Hall. rewrite forallb_forall in Hall.
+      apply Hall. apply in_map_iff. exists (k, old). split; [reflexivity | exact Hin].
+    - intros v Hlk. destruct (sel_keys_form sel u k Hsel Hl (in_items_key _ _ _ Hin)) as (n & s & -> & Hn).
+      apply (spread_hit kwL n s v HF Hn Hlk).
+  Qed.
+  Lemma evalid_put sel u qs : evalid u -> forallb in_unit qs = true -> evalid (u_put_sel sel u qs).
+  Proof. intros Hv Hu. unfold evalid, u_put_sel, u_edges. cbn [u_with_graph u_graph with_edges g_edges]. apply edges_put_vals_ok; assumption. Qed.
+
+  Lemma leaf_spread_ok sel u kwL : (sel = T \/ sel = L) -> Fr kw kwL -> like u -> evalid u ->
+    exists qs, lift_graph u (graph_set_params_sel sel (u_graph u) [] kwL) = (u_put_sel sel u qs, Some [])
+               /\ forallb in_unit qs = true /\ length qs = length (u_sel_items sel u)
+               /\ like (u_put_sel sel u qs) /\ evalid (u_put_sel sel u qs) /\ ud (u_put_sel sel u qs) = ud u.
+  Proof.
+    intros Hsel HF Hl Hv.
+    destruct (spread_plan_ok sel u kwL Hsel HF Hl Hv) as (qs & Hq & Hu).
+    exists qs. pose proof (leaf_step_ok sel u [] kwL qs (proj1 Hl) Hq) as Hs. rewrite skipn_nil' in Hs.
+    split; [exact Hs|]. split; [exact Hu|]. split; [apply (plan_lengths _ _ _ _ Hq)|]. split; [|split; [|reflexivity]].
+    - apply (SafeMidline.like_ei_sk ml _ u Hl). pose proof (SafeProofs.sk_uni_graph_set sel u [] kwL) as Hsk. rewrite Hs in Hsk. exact Hsk.
+    - apply evalid_put; assumption.
+  Qed.
+
+  (** ** the state between the steps *)
+  Definition St (mk : midline) : Prop := sk_mid mk = sk_mid ml.
+  Definition Inv (mk : midline) : Prop := forall l u, ml_leaf mk l = Some u -> like u /\ evalid u.
+  Definition Fd (mk : midline) : Prop :=
+    (forall l, option_map ud (ml_leaf mk l) = option_map ud (ml_leaf ml l)) /\ ml_unknown mk = ml_unknown ml.
+
+  Lemma St_names mk : St mk -> m_names_ok mk = true.
+  Proof. intros H. apply (SafeMidline.m_names_ok_sk mk ml H Hsafe). Qed.
+  Lemma Inv_with_leaf mk l u' : Inv mk -> ml_leaf mk l <> None -> like u' -> evalid u' -> Inv (ml_with_leaf mk l u').
+  Proof.
+    intros HI Hl Hlk Hev l' u Hu. destruct (leaf_id_dec l l') as [<-|Hne].
+    - rewrite (ml_leaf_with_same mk l u' Hl) in Hu. injection Hu as <-. split; assumption.
+    - rewrite (ml_leaf_with_other mk l l' u' Hne) in Hu. apply (HI l' u Hu).
+  Qed.
+  Lemma Fd_with_leaf mk l u u' : Fd mk -> ml_leaf mk l = Some u -> ud u' = ud u -> Fd (ml_with_leaf mk l u').
+  Proof.
+    intros [HF Hk] Hl Hud. split.
+    - intros l'. destruct (leaf_id_dec l l') as [<-|Hne].
+      + rewrite (ml_leaf_with_same mk l u') by congruence. rewrite <- HF, Hl. cbn [option_map]. rewrite Hud. reflexivity.
+      + rewrite (ml_leaf_with_other mk l l' u' Hne). apply HF.
+    - destruct (ml_with_leaf_frame mk l u') as (_ & _ & _ & Hu & _). rewrite Hu. exact Hk.
+  Qed.
+  Lemma Inv_mixing mk q : Inv mk -> Inv (ml_with_mixing mk q).
+  Proof. intros H l u Hu. apply (H l u). destruct l; exact Hu. Qed.
+  Lemma Fd_mixing mk q : Fd mk -> Fd (ml_with_mixing mk q).
+  Proof. intros [H Hk]. split; [|exact Hk]. intros l. rewrite <- H. destruct l; reflexivity. Qed.
+
+  (** one leaf step inside the composite: success and the invariants of the new state *)
+  Lemma leaf_step sel mk l u kwL : (sel = T \/ sel = L) -> Fr kw kwL -> Inv mk -> Fd mk -> ml_leaf mk l = Some u ->
+    exists qs, lift_graph u (graph_set_params_sel sel (u_graph u) [] kwL) = (u_put_sel sel u qs, Some [])
+               /\ forallb in_unit qs = true /\ length qs = length (u_sel_items sel u)
+               /\ Inv (ml_with_leaf mk l (u_put_sel sel u qs)) /\ Fd (ml_with_leaf mk l (u_put_sel sel u qs)).
+  Proof.
+    intros Hsel HF HI HFd Hl. destruct (HI l u Hl) as [Hlk Hev].
+    destruct (leaf_spread_ok sel u kwL Hsel HF Hlk Hev) as (qs & Hs & Hu & Hlen & Hlk' & Hev' & Hud).
+    exists qs. split; [exact Hs|]. split; [exact Hu|]. split; [exact Hlen|]. split.
+    - apply Inv_with_leaf; [exact HI | congruence | exact Hlk' | exact Hev'].
+    - apply (Fd_with_leaf mk l u); assumption.
+  Qed.
+
+  (** ** tumour spread *)
+  Lemma central_T_ok mk ikw : St mk -> Inv mk -> Fd mk -> Fr kw ikw ->
+    exists m1, (match ml_central mk with
+                | None => (mk, true)
+                | Some c => let '(c', ok) := ok_of (b_set_tumor_spread_params c [] ikw) in (ml_with_central mk c', ok)
+                end) = (m1, true)
+               /\ Inv m1 /\ Fd m1 /\ ml_ext m1 = ml_ext mk /\ ml_noext m1 = ml_noext mk /\ ml_mixing m1 = ml_mixing mk.
+  Proof.
+    intros HS HI HFd HF. destruct (ml_central mk) as [c|] eqn:Ec; [|exists mk; split; [reflexivity|]; split; [exact HI|]; split; [exact HFd|]; repeat split].
+    pose proof (St_names mk HS) as Hn.
+    destruct (SafeMidline.m_ok_bi mk c Hn (SafeMidline.m_ok_central mk c Ec)) as (Hbc & _).
+    destruct (SafeMidline.m_ok_flags mk Hn) as (_ & _ & Hcen). pose proof (Hcen c Ec) as HcT.
+    assert (Hli : ml_leaf mk LCentralIpsi = Some (b_ipsi c)) by (cbn [ml_leaf]; rewrite Ec; reflexivity).
+    assert (Hlc : ml_leaf mk LCentralContra = Some (b_contra c)) by (cbn [ml_leaf]; rewrite Ec; reflexivity).
+    destruct (HI _ _ Hli) as [Hlki Hevi]. destruct (HI _ _ Hlc) as [Hlkc Hevc].
+    destruct (side_kwargs ikw) as [ikw' ckw'] eqn:Hsk. destruct (side_kwargs_lk ikw ikw' ckw' Hsk) as [Hlk _].
+    destruct (Fr_side kw ikw ikw' ckw' HF Hsk) as [HFi _].
+    destruct (spread_plan_ok T (b_ipsi c) ikw' (or_introl eq_refl) HFi Hlki Hevi) as (qs & Hq & Hu).
+    pose proof (b_side_spec T true c [] ikw kind_sel_tumor Hbc) as Hs. unfold side_plan, side_result, side_len in Hs.
+    rewrite app_nil_r in Hs. rewrite (plan_ext (side_lk "ipsi" ikw) (u_lk ikw')) in Hs by (intros k _; symmetry; apply Hlk).
+    rewrite Hq in Hs. rewrite <- (plan_lengths _ _ _ _ Hq), firstn_all in Hs.
+    unfold b_set_tumor_spread_params. rewrite HcT. change is_tumor_spread with T.
+    pose proof (SafeProofs.sk_bi_set_side T true c [] ikw) as Hsk'. rewrite Hs in Hsk' |- *. cbn [fst snd ok_of] in Hsk' |- *.
+    set (c' := b_with c (u_put_sel T (b_ipsi c) qs) (u_put_sel T (b_contra c) qs)) in *.
+    assert (Hski : sk_uni (b_ipsi c') = sk_uni (b_ipsi c)) by (apply (f_equal b_ipsi) in Hsk'; exact Hsk').
+    assert (Hskc : sk_uni (b_contra c') = sk_uni (b_contra c)) by (apply (f_equal b_contra) in Hsk'; exact Hsk').
+    exists (ml_with_central mk c'). split; [reflexivity|]. split; [|split; [|repeat split]].
+    - intros l u Hl. destruct l; [ | | exact (HI LExtIpsi u Hl) | exact (HI LExtContra u Hl) | exact (HI LNoextIpsi u Hl) | exact (HI LNoextContra u Hl)]; cbn in Hl; injection Hl as <-.
+      + split; [apply (SafeMidline.like_ei_sk ml _ _ Hlki Hski) | apply evalid_put; assumption].
+      + split; [apply (SafeMidline.like_ei_sk ml _ _ Hlkc Hskc) | apply evalid_put; assumption].
+    - destruct HFd as [HFl Hk]. split; [|exact Hk]. intros l. rewrite <- HFl. destruct l; cbn; rewrite ?Ec; reflexivity.
+  Qed.
+
+  Definition mixvalid (mk : midline) : Prop := forall cur, ml_mixing mk = Some cur -> in_unit cur = true.
+
+  Lemma top_hit P K v : Forall (fun w => In w routing) P -> (K = ["mixing"] \/ K = ["midext"; "prob"]) -> kw_get (P ++ K) kw = Some v ->
+    exists q, v = V q /\ in_unit q = true.
+  Proof.
+    intros HP HK Hk. apply (Hunit (P ++ K) v (kw_get_Some_In _ _ _ Hk)).
+    intros HD. destruct (D_key _ _ HD) as (t & k' & E & Ht & _). destruct HK as [-> | ->].
+    - apply app_eq_two1 in E. destruct E as (-> & _). inversion HP as [|? ? Hr _]; subst.
+      exact (in_reserved_not_tstage ei t Hei (routing_reserved _ Hr) Ht).
+    - apply app_eq_two2 in E. destruct E as (_ & <- & _). apply (in_reserved_not_tstage ei "midext" Hei); [cbn; tauto | exact Ht].
+  Qed.
+
+  Lemma tumor_ok mk : St mk -> Inv mk -> Fd mk -> mixvalid mk ->
+    exists mk', m_set_tumor_spread_params mk [] kw = (mk', Some []) /\ Inv mk' /\ Fd mk'.
+  Proof.
+    intros HS HI HFd Hmv. unfold m_set_tumor_spread_params. change ["ipsi"; "noext"; "ext"; "contra"] with X4.
+    destruct (unflatten_and_split kw X4) as [split glob] eqn:Hu.
+    set (ikw := obj_kwargs "ipsi" split glob).
+    assert (HF0 : Fr kw kw) by (apply Fr_refl, Hnd).
+    assert (HFi : Fr kw ikw) by (apply (Fr_obj kw kw X4 "ipsi" split glob HF0 not_empty_X4); [cbn; tauto | cbn; tauto | exact Hu]).
+    destruct (central_T_ok mk ikw HS HI HFd HFi) as (m1 & E1 & HI1 & HF1 & Hx1 & Hn1 & Hm1). rewrite E1. cbn [negb].
+    unfold u_set_tumor_spread_params, ok_of.
+    (* ext.ipsi *)
+    destruct (leaf_step T m1 LExtIpsi (b_ipsi (ml_ext m1)) ikw (or_introl eq_refl) HFi HI1 HF1 eq_refl) as (q2 & Hs2 & Hu2 & Hl2 & HI2 & HF2).
+    change is_tumor_spread with T. rewrite Hs2. cbn [fst snd negb].
+    change (ml_with_ext m1 (b_with_ipsi (ml_ext m1) (u_put_sel T (b_ipsi (ml_ext m1)) q2)))
+      with (ml_with_leaf m1 LExtIpsi (u_put_sel T (b_ipsi (ml_ext m1)) q2)).
+    set (m2 := ml_with_leaf m1 LExtIpsi (u_put_sel T (b_ipsi (ml_ext m1)) q2)) in *.
+    (* noext.ipsi *)
+    destruct (leaf_step T m2 LNoextIpsi (b_ipsi (ml_noext m2)) ikw (or_introl eq_refl) HFi HI2 HF2 eq_refl) as (q3 & Hs3 & Hu3 & Hl3 & HI3 & HF3).
+    rewrite Hs3. cbv beta iota.
+    change (ml_with_noext m2 (b_with_ipsi (ml_noext m2) (u_put_sel T (b_ipsi (ml_noext m2)) q3)))
+      with (ml_with_leaf m2 LNoextIpsi (u_put_sel T (b_ipsi (ml_noext m2)) q3)).
+    set (m3 := ml_with_leaf m2 LNoextIpsi (u_put_sel T (b_ipsi (ml_noext m2)) q3)) in *.
+    assert (Hmix3 : ml_mixing m3 = ml_mixing mk) by (rewrite <- Hm1; reflexivity).
+    destruct (ml_mixing m3) as [cur|] eqn:Emix.
+    - (* with mixing *)
+      set (ckw := obj_kwargs "contra" split glob).
+      assert (HFc : Fr kw ckw) by (apply (Fr_obj kw kw X4 "contra" split glob HF0 not_empty_X4); [cbn; tauto | cbn; tauto | exact Hu]).
+      destruct (leaf_step T m3 LNoextContra (b_contra (ml_noext m3)) ckw (or_introl eq_refl) HFc HI3 HF3 eq_refl) as (q4 & Hs4 & Hu4 & Hl4 & HI4 & HF4).
+      rewrite Hs4. cbv beta iota.
+      change (ml_with_noext m3 (b_with_contra (ml_noext m3) (u_put_sel T (b_contra (ml_noext m3)) q4)))
+        with (ml_with_leaf m3 LNoextContra (u_put_sel T (b_contra (ml_noext m3)) q4)).
+      set (m4 := ml_with_leaf m3 LNoextContra (u_put_sel T (b_contra (ml_noext m3)) q4)) in *.
+      rewrite popfirst_eq. cbn [hd_error tl val_or]. cbv beta iota.
+      assert (Hmp : exists mix, check_unit (match kw_get ["mixing"] glob with Some v => v | None => V cur end) = Some mix /\ in_unit mix = true).
+      { destruct (kw_get ["mixing"] glob) as [v|] eqn:Eg.
+        - destruct (proj2 (Fr_glob kw kw X4 split glob HF0 not_empty_X4 Hu) _ _ Eg) as (P & HP & Hk).
+          destruct (top_hit P ["mixing"] v HP (or_introl eq_refl) Hk) as (q & -> & Hq). exists q. cbn [check_unit]. rewrite Hq. auto.
+        - exists cur. assert (Hc : in_unit cur = true) by (apply Hmv; rewrite <- Hmix3; reflexivity).
+          cbn [check_unit]. rewrite Hc. auto. }
+      destruct Hmp as (mix & Emp & Hmixu). rewrite Emp.
+      set (m5 := ml_with_mixing m4 mix).
+      destruct (HI1 LExtIpsi _ eq_refl) as [Hlk_ei Hev_ei]. destruct (HI3 LNoextContra _ eq_refl) as [Hlk_nc Hev_nc].
+      destruct (HI4 LExtContra _ eq_refl) as [Hlk_ec Hev_ec].
+      change (mixed_kwargs mix m5) with
+        (map (fun p : (path * Qc) * Qc => (fst (fst p), V (mix * snd (fst p) + (1 - mix) * snd p)%Qc))
+           (combine (items (u_get_tumor_spread_params (u_put_sel T (b_ipsi (ml_ext m1)) q2) true))
+                    (map snd (items (u_get_tumor_spread_params (u_put_sel T (b_contra (ml_noext m3)) q4) true))))).
+      assert (HlT : forall u, like u -> length (u_sel_items T u) = length (SafeMidline.TK ml)).
+      { intros u (_ & HT & _). change (u_sel_items T u) with (u_tumor_items u). rewrite <- HT, map_length. reflexivity. }
+      pose proof (SafeMidline.step_mixed (SafeMidline.TK ml) (b_ipsi (ml_ext m1)) (b_contra (ml_noext m3)) (b_contra (ml_ext m5)) mix q2 q4
+                    (proj1 Hlk_ei) (proj1 Hlk_nc) (proj1 Hlk_ec) (proj1 (proj2 Hlk_ei)) (proj1 (proj2 Hlk_nc)) (proj1 (proj2 Hlk_ec))) as Hs6.
+      rewrite Hl2, (HlT _ Hlk_ei) in Hs6. rewrite Hl4, (HlT _ Hlk_nc) in Hs6.
+      specialize (Hs6 eq_refl eq_refl Hmixu Hu2 Hu4). unfold T. rewrite Hs6. cbn [fst snd].
+      set (ec' := u_put_sel is_tumor_spread (b_contra (ml_ext m5)) (SafeMidline.mixed mix q2 q4)) in *.
+      exists (ml_with_leaf m5 LExtContra ec'). split; [reflexivity|]. split.
+      + apply (Inv_with_leaf m5 LExtContra ec'); [apply Inv_mixing, HI4 | discriminate | | ].
+        * apply (SafeMidline.like_ei_sk ml _ _ Hlk_ec). match type of Hs6 with lift_graph ?u (graph_set_params_sel ?sel _ ?a ?k) = _ => pose proof (SafeProofs.sk_uni_graph_set sel u a k) as Hsk end.
+          rewrite Hs6 in Hsk. exact Hsk.
+        * apply evalid_put; [exact Hev_ec | apply SafeMidline.mixed_unit; assumption].
+      + apply (Fd_with_leaf m5 LExtContra (b_contra (ml_ext m5)) ec'); [apply Fd_mixing, HF4 | reflexivity | reflexivity].
+    - (* without mixing *)
+      destruct (unflatten_and_split (sub_kwargs "noext" split) ["contra"]) as [nsplit g1] eqn:Hu1.
+      set (nkw := obj_kwargs "contra" nsplit glob).
+      assert (HFn : Fr kw nkw) by (apply (Fr_nested kw "noext" split glob nsplit g1 Hnd); [tauto | exact Hu | exact Hu1]).
+      destruct (leaf_step T m3 LNoextContra (b_contra (ml_noext m3)) nkw (or_introl eq_refl) HFn HI3 HF3 eq_refl) as (q4 & Hs4 & Hu4 & Hl4 & HI4 & HF4).
+      rewrite Hs4. cbv beta iota.
+      change (ml_with_noext m3 (b_with_contra (ml_noext m3) (u_put_sel T (b_contra (ml_noext m3)) q4)))
+        with (ml_with_leaf m3 LNoextContra (u_put_sel T (b_contra (ml_noext m3)) q4)).
+      set (m4 := ml_with_leaf m3 LNoextContra (u_put_sel T (b_contra (ml_noext m3)) q4)) in *.
+      destruct (unflatten_and_split (sub_kwargs "ext" split) ["contra"]) as [esplit g2] eqn:Hu2'.
+      set (ekw := obj_kwargs "contra" esplit glob).
+      assert (HFe : Fr kw ekw) by (apply (Fr_nested kw "ext" split glob esplit g2 Hnd); [tauto | exact Hu | exact Hu2']).
+      destruct (leaf_step T m4 LExtContra (b_contra (ml_ext m4)) ekw (or_introl eq_refl) HFe HI4 HF4 eq_refl) as (q5 & Hs5 & Hu5 & Hl5 & HI5 & HF5).
+      rewrite Hs5.
+      exists (ml_with_leaf m4 LExtContra (u_put_sel T (b_contra (ml_ext m4)) q5)). split; [reflexivity|]. split; assumption.
+  Qed.
+
+  (** ** LNL spread *)
+  Lemma lnl_block_ok ls : forall mk kwL, Fr kw kwL -> Inv mk -> Fd mk ->
+    exists mk', m_set_lnl_block mk ls [] kwL = (mk', Some []) /\ Inv mk' /\ Fd mk'.
+  Proof.
+    induction ls as [|l r IH]; intros mk kwL HF HI HFd; [exists mk; split; [reflexivity|]; split; assumption|].
+    cbn [m_set_lnl_block]. destruct (ml_leaf mk l) as [u|] eqn:El; [|apply IH; assumption].
+    destruct (leaf_step L mk l u kwL (or_intror eq_refl) HF HI HFd El) as (qs & Hs & _ & _ & HI' & HF').
+    unfold u_set_lnl_spread_params. change sel_lnl with L. rewrite Hs.
+    destruct r as [|l2 r2]; [eexists; split; [reflexivity|]; split; assumption|].
+    apply IH; assumption.
+  Qed.
+  Lemma lnl_ok mk : Inv mk -> Fd mk -> exists mk', m_set_lnl_spread_params mk [] kw = (mk', Some []) /\ Inv mk' /\ Fd mk'.
+  Proof.
+    intros HI HFd. unfold m_set_lnl_spread_params. change ["ipsi"; "noext"; "ext"; "contra"] with X4.
+    destruct (unflatten_and_split kw X4) as [split glob] eqn:Hu.
+    assert (HF0 : Fr kw kw) by (apply Fr_refl, Hnd).
+    destruct (ml_symL mk).
+    - apply lnl_block_ok; [apply (Fr_glob kw kw X4 split glob HF0 not_empty_X4 Hu) | exact HI | exact HFd].
+    - destruct (lnl_block_ok [LCentralIpsi; LExtIpsi; LNoextIpsi] mk (obj_kwargs "ipsi" split glob)) as (m1 & E1 & HI1 & HF1); try assumption.
+      { apply (Fr_obj kw kw X4 "ipsi" split glob HF0 not_empty_X4); [cbn; tauto | cbn; tauto | exact Hu]. }
+      rewrite E1. cbn [andthen]. apply lnl_block_ok; try assumption.
+      apply (Fr_obj kw kw X4 "contra" split glob HF0 not_empty_X4); [cbn; tauto | cbn; tauto | exact Hu].
+  Qed.
+
+  (** ** distributions: the keyword for a distribution name reaches every leaf unchanged, and
+         nothing else does *)
+  Definition dkey (K : path) : Prop := In K (map fst (u_dist_items ei)).
+  Definition Tp (kw' : kwargs) : Prop := forall K, dkey K -> kw_get K kw' = kw_get K kw.
+  Definition dplan (u : uni) : list val := plan (fun K => kw_get K kw) (u_dist_items u) [].
+  Definition dhyp (u : uni) : Prop := dists_put (u_maxt u) (u_dists u) (dplan u) <> None.
+
+  Lemma app_eq_len {A} (P Q S S' : list A) : length S = length S' -> P ++ S = Q ++ S' -> P = Q /\ S = S'.
+  Proof.
+    revert Q. induction P as [|p P IH]; intros [|q Q] Hl E; cbn in E.
+    - auto.
+    - exfalso. subst S. cbn in Hl. rewrite app_length in Hl. lia.
+    - exfalso. subst S'. cbn in Hl. rewrite app_length in Hl. lia.
+    - injection E as -> E. destruct (IH Q Hl E) as [-> ->]. auto.
+  Qed.
+
+  Lemma nform_tail3 c P name t k : nform ml c -> c = P ++ [name; t; k] -> TS ei t -> False.
+  Proof.
+    intros Hf E Ht.
+    destruct Hf;
+      try (apply (f_equal (@length _)) in E; rewrite app_length in E; cbn in E; lia);
+      try (match type of E with [?a; ?b; ?c] = _ => change [a; b; c] with ([] ++ [a; b; c]) in E end;
+           apply eq_sym, app_eq_len in E; [|reflexivity]; destruct E as [_ E]; injection E as _ <- _);
+      try (match type of E with [?w; ?a; ?b; ?c] = _ => change [w; a; b; c] with ([w] ++ [a; b; c]) in E end;
+           apply eq_sym, app_eq_len in E; [|reflexivity]; destruct E as [_ E]; injection E as _ <- _);
+      nf_solve Hok'.
+  Qed.
+  Lemma nform_tail1 c P k : nform ml c -> c = P ++ [k] -> Forall (fun w => In w routing) P -> c <> ["mixing"] -> False.
+  Proof.
+    intros Hf E HP Hnm.
+    assert (Hr : forall w, In w P -> In w reserved) by (intros w Hw; rewrite Forall_forall in HP; apply routing_reserved, HP, Hw).
+    destruct Hf; try (apply Hnm; reflexivity);
+      try (match type of E with [?a; ?b; ?c] = _ => change [a; b; c] with ([a; b] ++ [c]) in E end);
+      try (match type of E with [?w; ?a; ?b; ?c] = _ => change [w; a; b; c] with ([w; a; b] ++ [c]) in E end);
+      try (match type of E with [?a; ?b] = _ => change [a; b] with ([a] ++ [b]) in E end);
+      apply eq_sym, app_eq_len in E; try reflexivity; destruct E as [-> _].
+    all: try (match goal with H : TNp _ ?n |- _ => apply (TNp_res ml Hok' n H), Hr; cbn; tauto end).
+    all: try (match goal with H : LNp _ ?n |- _ => apply (LNp_res ml Hok' n H), Hr; cbn; tauto end).
+    all: try (match goal with H : TS _ ?n |- _ => apply (TS_res ml Hok' n H), Hr; cbn; tauto end).
+    rewrite Forall_forall in HP. specialize (HP "midext" (or_introl eq_refl)). cbn in HP. intuition discriminate.
+  Qed.
+
+  Lemma dkey_form K : dkey K -> exists t k, K = [t; k] /\ TS ei t /\ In k (dkw ml).
+  Proof. apply D_key. Qed.
+
+  Lemma dist_prefixed_none kw' name K : Fr kw kw' -> dkey K -> kw_get (name :: K) kw' = None.
+  Proof.
+    intros HF HK. destruct (kw_get (name :: K) kw') as [v|] eqn:E; [exfalso|reflexivity].
+    destruct (proj2 HF _ _ E) as (P & _ & Hk). destruct (dkey_form K HK) as (t & k & -> & Ht & _).
+    apply (nform_tail3 (P ++ [name; t; k]) P name t k); [|reflexivity | exact Ht].
+    apply Hkeys. apply in_items_key with (v := v), kw_get_Some_In, Hk.
+  Qed.
+  Lemma Tp_obj kw' X name split glob : Fr kw kw' -> Tp kw' -> (forall w, In w X -> In w routing) -> In name X ->
+    unflatten_and_split kw' X = (split, glob) -> Tp (obj_kwargs name split glob).
+  Proof.
+    intros HF HT HX Hin Hu K HK.
+    assert (He : ~ In "" X) by (intros H; apply HX in H; cbn in H; intuition discriminate).
+    rewrite (obj_kwargs_lookup kw' X name K split glob He Hu Hin). unfold eff.
+    rewrite !(kw_last_NoDup _ _ (proj1 HF)), (dist_prefixed_none kw' name K HF HK).
+    destruct (dkey_form K HK) as (t & k & -> & Ht & _). unfold head_of. cbn [partition_key fst].
+    assert (Hm : mem t X = false).
+    { apply mem_false. intros H. apply (in_reserved_not_tstage ei t Hei (routing_reserved _ (HX _ H)) Ht). }
+    rewrite Hm. apply HT, HK.
+  Qed.
+  Lemma Tp_refl : Tp kw. Proof. intros K _. reflexivity. Qed.
+  Lemma Tp_side kw' ikw ckw : Fr kw kw' -> Tp kw' -> side_kwargs kw' = (ikw, ckw) -> Tp ikw /\ Tp ckw.
+  Proof.
+    intros HF HT Hs. unfold side_kwargs in Hs. destruct (unflatten_and_split kw' ["ipsi"; "contra"]) as [split glob] eqn:Hu.
+    injection Hs as <- <-. split; apply (Tp_obj kw' ["ipsi"; "contra"] _ split glob HF HT); try exact Hu;
+      try (intros w Hw; cbn in Hw |- *; tauto); cbn; tauto.
+  Qed.
+
+  Lemma dist_lk_exact kwL K : Fr kw kwL -> Tp kwL -> dkey K -> u_lk kwL K = kw_get K kw.
+  Proof.
+    intros HF HT HK. destruct (dkey_form K HK) as (t & k & -> & Ht & Hk). unfold u_lk.
+    rewrite !(kw_last_NoDup _ _ (proj1 HF)), (HT _ HK). destruct (kw_get [t; k] kw) as [v|]; [reflexivity|].
+    destruct (kw_get [k] kwL) as [v|] eqn:E; [exfalso|reflexivity].
+    destruct (proj2 HF _ _ E) as (P & HP & Hg).
+    assert (Hin : In (P ++ [k]) (map fst kw)) by (apply in_items_key with (v := v), kw_get_Some_In, Hg).
+    apply (nform_tail1 (P ++ [k]) P k (Hkeys _ Hin) eq_refl HP). intros Em.
+    change ["mixing"] with ([] ++ ["mixing"]) in Em. apply app_eq_len in Em; [|reflexivity]. destruct Em as [-> Em]. injection Em as ->.
+    exact (Hmk Hin Hk).
+  Qed.
+
+  Lemma leaf_dist_ok u kwL : Fr kw kwL -> Tp kwL -> u_names_ok u = true -> map fst (u_dist_items u) = map fst (u_dist_items ei) -> dhyp u ->
+    exists u', u_set_distribution_params u [] kwL = (u', Some []).
+  Proof.
+    intros HF HT Hn HD Hh. pose proof (u_set_dist_spec u kwL Hn []) as Hs.
+    rewrite (plan_ext (u_lk kwL) (fun K => kw_get K kw)) in Hs.
+    - fold (dplan u) in Hs. unfold dhyp in Hh. destruct (dists_put (u_maxt u) (u_dists u) (dplan u)) as [ds'|]; [|congruence].
+      rewrite skipn_nil' in Hs. eexists. exact Hs.
+    - intros K HK. apply dist_lk_exact; [exact HF | exact HT | unfold dkey; rewrite <- HD; exact HK].
+  Qed.
+  Lemma bi_dist_ok b ckw : Fr kw ckw -> Tp ckw ->
+    u_names_ok (b_ipsi b) = true -> map fst (u_dist_items (b_ipsi b)) = map fst (u_dist_items ei) -> dhyp (b_ipsi b) ->
+    u_names_ok (b_contra b) = true -> map fst (u_dist_items (b_contra b)) = map fst (u_dist_items ei) -> dhyp (b_contra b) ->
+    exists b', b_set_distribution_params b [] ckw = (b', Some []).
+  Proof.
+    intros HF HT Hni HDi Hhi Hnc HDc Hhc. unfold b_set_distribution_params. destruct (side_kwargs ckw) as [ikw' ckw'] eqn:Hsk.
+    destruct (Fr_side kw ckw ikw' ckw' HF Hsk) as [HFi HFc]. destruct (Tp_side ckw ikw' ckw' HF HT Hsk) as [HTi HTc].
+    destruct (leaf_dist_ok (b_ipsi b) ikw' HFi HTi Hni HDi Hhi) as (i' & ->).
+    destruct (leaf_dist_ok (b_contra b) ckw' HFc HTc Hnc HDc Hhc) as (c' & ->). eexists. reflexivity.
+  Qed.
+
+  Lemma XD_routing mk w : In w (XD mk) -> In w routing.
+  Proof. intros H. apply (proj2 (XD_props mk)) in H. cbn in H |- *. tauto. Qed.
+  Lemma dist_ok mk : St mk -> (forall u, In u (m_unis mk) -> dhyp u) -> exists mk', m_set_distribution_params mk [] kw = (mk', Some []).
+  Proof.
+    intros HS Hh. pose proof (St_names mk HS) as Hn.
+    destruct (SafeMidline.keys_sk mk ml Hsafe HS) as (_ & _ & HDK).
+    assert (Hb : forall b, In b (m_bis mk) ->
+              u_names_ok (b_ipsi b) = true /\ map fst (u_dist_items (b_ipsi b)) = map fst (u_dist_items ei) /\ dhyp (b_ipsi b) /\
+              u_names_ok (b_contra b) = true /\ map fst (u_dist_items (b_contra b)) = map fst (u_dist_items ei) /\ dhyp (b_contra b)).
+    { intros b Hin. destruct (SafeMidline.m_ok_bi mk b Hn Hin) as (_ & (Hni & _ & _ & HDi) & (Hnc & _ & _ & HDc) & _).
+      assert (Hui : In (b_ipsi b) (m_unis mk)) by (apply in_flat_map; exists b; split; [exact Hin | left; reflexivity]).
+      assert (Huc : In (b_contra b) (m_unis mk)) by (apply in_flat_map; exists b; split; [exact Hin | right; left; reflexivity]).
+      repeat split; try assumption; try (apply Hh; assumption).
+      - rewrite HDi, HDK. reflexivity.
+      - rewrite HDc, HDK. reflexivity. }
+    unfold m_set_distribution_params. fold (XD mk). destruct (unflatten_and_split kw (XD mk)) as [split glob] eqn:Hu.
+    assert (HF0 : Fr kw kw) by (apply Fr_refl, Hnd).
+    assert (HeD : ~ In "" (XD mk)) by (intros H; apply XD_routing in H; cbn in H; intuition discriminate).
+    assert (Hchild : forall child b, In child (XD mk) -> In b (m_bis mk) -> exists b', b_set_distribution_params b [] (obj_kwargs child split glob) = (b', Some [])).
+    { intros child b Hc Hin. destruct (Hb b Hin) as (H1 & H2 & H3 & H4 & H5 & H6). apply bi_dist_ok; try assumption.
+      - apply (Fr_obj kw kw (XD mk) child split glob HF0 HeD Hc (XD_routing mk child Hc) Hu).
+      - apply (Tp_obj kw (XD mk) child split glob HF0 Tp_refl (XD_routing mk) Hc Hu). }
+    destruct (Hchild "ext" (ml_ext mk)) as (e' & ->); [apply XD_props | left; reflexivity|].
+    autorewrite with mlf.
+    destruct (Hchild "noext" (ml_noext mk)) as (n' & ->); [unfold XD; cbn; tauto | right; left; reflexivity|].
+    autorewrite with mlf.
+    destruct (ml_central mk) as [c|] eqn:Ec.
+    - destruct (Hchild "central" c) as (c' & ->); [unfold XD; rewrite Ec; cbn; tauto | apply SafeMidline.m_ok_central, Ec|].
+      autorewrite with mlf. destruct (ml_unknown mk) as [k|] eqn:Ek; [|eexists; reflexivity].
+      destruct (Hchild "unknown" k) as (k' & ->); [unfold XD; rewrite Ec, Ek; cbn; tauto | apply SafeMidline.m_ok_unknown, Ek|].
+      eexists; reflexivity.
+    - autorewrite with mlf. destruct (ml_unknown mk) as [k|] eqn:Ek; [|eexists; reflexivity].
+      destruct (Hchild "unknown" k) as (k' & ->); [unfold XD; rewrite Ec, Ek; cbn; tauto | apply SafeMidline.m_ok_unknown, Ek|].
+      eexists; reflexivity.
+  Qed.
+
+  (** ** the whole call *)
+  Lemma dhyp_ud u u0 : ud u = ud u0 -> dhyp u0 -> dhyp u.
+  Proof. unfold ud, dhyp, dplan, u_dist_items. intros E. injection E as -> ->. auto. Qed.
+  Lemma unis_leaf mk u : In u (m_unis mk) ->
+    (exists l, ml_leaf mk l = Some u) \/ (exists k, ml_unknown mk = Some k /\ (u = b_ipsi k \/ u = b_contra k)).
+  Proof.
+    unfold m_unis, m_bis, opt_list. intros H. apply in_flat_map in H. destruct H as (b & Hb & Hu).
+    cbn [app In] in Hb. destruct Hb as [<-|[<-|Hb]].
+    - left. destruct Hu as [<-|[<-|[]]]; [exists LExtIpsi | exists LExtContra]; reflexivity.
+    - left. destruct Hu as [<-|[<-|[]]]; [exists LNoextIpsi | exists LNoextContra]; reflexivity.
+    - apply in_app_iff in Hb. destruct (ml_central mk) as [c|] eqn:Ec, (ml_unknown mk) as [k|] eqn:Ek; cbn in Hb;
+        repeat (destruct Hb as [Hb|Hb]); subst; try contradiction.
+      all: try (left; destruct Hu as [<-|[<-|[]]]; [exists LCentralIpsi | exists LCentralContra]; cbn [ml_leaf]; rewrite Ec; reflexivity).
+      all: right; exists b; split; [reflexivity|]; destruct Hu as [<-|[<-|[]]]; tauto.
+  Qed.
+  Lemma leaf_unis mk l u : ml_leaf mk l = Some u -> In u (m_unis mk).
+  Proof.
+    intros H. unfold m_unis, m_bis, opt_list. apply in_flat_map.
+    destruct l; cbn [ml_leaf] in H; try (destruct (ml_central mk) as [c|] eqn:Ec; cbn [option_map] in H; [|discriminate]); injection H as <-.
+    - exists c. split; [cbn; tauto | left; reflexivity].
+    - exists c. split; [cbn; tauto | right; left; reflexivity].
+    - exists (ml_ext mk). split; [left; reflexivity | left; reflexivity].
+    - exists (ml_ext mk). split; [left; reflexivity | right; left; reflexivity].
+    - exists (ml_noext mk). split; [right; left; reflexivity | left; reflexivity].
+    - exists (ml_noext mk). split; [right; left; reflexivity | right; left; reflexivity].
+  Qed.
+  Lemma unknown_unis mk k : ml_unknown mk = Some k -> In (b_ipsi k) (m_unis mk) /\ In (b_contra k) (m_unis mk).
+  Proof.
+    intros H. unfold m_unis. split; apply in_flat_map; exists k; (split; [apply SafeMidline.m_ok_unknown, H | cbn; tauto]).
+  Qed.
+
+  Lemma mid_kw_accept :
+    (forall l u, ml_leaf ml l = Some u -> evalid u) -> mixvalid ml -> (forall u, In u (m_unis ml) -> dhyp u) ->
+    exists m', m_set_params ml [] kw = (m', Some []).
+  Proof.
+    intros Hev Hmv Hd.
+    assert (HI : Inv ml).
+    { intros l u Hl. split; [|apply (Hev l u Hl)]. pose proof (leaf_unis ml l u Hl) as Hin. unfold m_unis in Hin.
+      apply in_flat_map in Hin. destruct Hin as (b & Hb & Hu). destruct (SafeMidline.m_ok_bi ml b Hsafe Hb) as (_ & Hi & Hc & _).
+      destruct Hu as [<-|[<-|[]]]; assumption. }
+    assert (HFd : Fd ml) by (split; reflexivity).
+    rewrite (m_set_params_unfold ml [] kw Hok').
+    rewrite popat_nil by (rewrite mid_items_split, !app_length; cbn [m_midext_item length]; lia).
+    cbv beta iota zeta.
+    assert (H0 : exists m0, match match kw_get ["midext"; "prob"] kw with Some v => Some v | None => None end with
+                            | None => Some ml | Some v => option_map (ml_with_midext ml) (check_unit v) end = Some m0
+                            /\ St m0 /\ Inv m0 /\ Fd m0 /\ mixvalid m0).
+    { destruct (kw_get ["midext"; "prob"] kw) as [v|] eqn:E.
+      - destruct (top_hit [] ["midext"; "prob"] v (Forall_nil _) (or_intror eq_refl) E) as (q & -> & Hq).
+        exists (ml_with_midext ml q). cbn [check_unit]. rewrite Hq. split; [reflexivity|]. split; [reflexivity|].
+        split; [intros l u Hl; apply (HI l u); destruct l; exact Hl|]. split; [|exact Hmv].
+        split; [intros l; destruct l; reflexivity | reflexivity].
+      - exists ml. split; [reflexivity|]. split; [reflexivity|]. split; [exact HI|]. split; [exact HFd | exact Hmv]. }
+    destruct H0 as (m0 & -> & HS0 & HI0 & HF0 & Hmv0). cbn [app].
+    destruct (tumor_ok m0 HS0 HI0 HF0 Hmv0) as (m1 & E1 & HI1 & HF1).
+    assert (HS1 : St m1) by (pose proof (SafeProofs.sk_mid_set_tumor m0 [] kw) as H; rewrite E1 in H; cbn [fst] in H; unfold St; rewrite H; exact HS0).
+    destruct (lnl_ok m1 HI1 HF1) as (m2 & E2 & HI2 & HF2).
+    assert (HS2 : St m2) by (pose proof (SafeProofs.sk_mid_set_lnl m1 [] kw) as H; rewrite E2 in H; cbn [fst] in H; unfold St; rewrite H; exact HS1).
+    unfold m_set_spread_params. rewrite E1. cbn [andthen]. rewrite E2. cbn [andthen].
+    apply (dist_ok m2 HS2). intros u Hu. destruct HF2 as [HFl HFk].
+    destruct (unis_leaf m2 u Hu) as [(l & Hl)|(k & Hk & Hor)].
+    - pose proof (HFl l) as E. rewrite Hl in E. destruct (ml_leaf ml l) as [u0|] eqn:El; [|discriminate].
+      cbn [option_map] in E. injection E as E. apply (dhyp_ud u u0); [unfold ud; congruence|]. apply Hd, (leaf_unis ml l u0 El).
+    - rewrite HFk in Hk. destruct (unknown_unis ml k Hk) as [H1 H2]. destruct Hor as [-> | ->]; apply Hd; assumption.
+  Qed.
+End Forward.
+
+(** ** Statement: an acceptable literal-subset proposal is accepted *)
+(** the current state is valid: every spread / growth / micro value of every leaf of ext,
+    noext, central lies in [0,1], and so does the mixing parameter (what every setter
+    guarantees of the values it has written; true of every constructed object) *)
+Definition m_spread_valid (ml : midline) : Prop :=
+  (forall l u, ml_leaf ml l = Some u -> forallb edge_vals_ok (u_edges u) = true) /\
+  (forall cur, ml_mixing ml = Some cur -> in_unit cur = true).
+(** the proposal is acceptable: every value for a name that is not a distribution parameter
+    lies in [0,1]; the distributions of EVERY sub-model (ext, noext, central, unknown; both
+    sides) accept their own current keywords overridden by the proposed ones *)
+Definition lit_accepts (ml : midline) (named : list path) (qs : list Qc) : Prop :=
+  (forall n q, In (n, q) (combine named qs) -> ~ In n (map fst (u_dist_items (ml_ei ml))) -> in_unit q = true) /\
+  (forall u, In u (m_unis ml) ->
+     dists_put (u_maxt u) (u_dists u) (plan (fun K => kw_get K (combine named (vals qs))) (u_dist_items u) []) <> None).
+Definition C17_midline_literal_subset_accepted_stmt : Prop :=
+  forall ml named qs, m_names_ok ml = true -> m_spread_valid ml -> NoDup named -> incl named (m_names ml) ->
+    length qs = length named -> mixing_kw_ok ml named -> lit_accepts ml named qs ->
+    snd (set_named_params (mk_nstate (MMid ml) (Some named)) (vals qs) []) = inr tt.
+(** ... hence the complete round trip *)
+Definition C17_midline_literal_subset_complete_stmt : Prop :=
+  forall ml named qs, m_names_ok ml = true -> m_spread_valid ml -> NoDup named -> incl named (m_names ml) ->
+    length qs = length named -> mixing_kw_ok ml named -> lit_accepts ml named qs ->
+    exists s', set_named_params (mk_nstate (MMid ml) (Some named)) (vals qs) [] = (s', inr tt) /\
+      get_named_params s' = inr (combine named qs) /\ get_num_dims s' = inr (length named) /\
+      exists its', param_items (ns_model s') = Some its' /\ map fst its' = m_names ml /\
+        (forall n q, In (n, q) (combine named qs) -> kw_get n its' = Some q) /\
+        (forall k old, In (k, old) (m_items ml) -> ~ In k named -> kw_get k its' = Some old).
+(** C12: an acceptable proposal for the declared names is scored (never -inf, never a raise) *)
+Definition C12_midline_named_subset_accepted_stmt : Prop :=
+  forall R (lik : model -> R) m names v g, m_names_ok m = true -> m_spread_valid m -> NoDup names -> incl names (m_names m) ->
+    length v = length names -> both_forms names (vals v) g -> mixing_kw_ok m names -> lit_accepts m names v ->
+    let r := likelihood_given R lik (Some names) (MMid m) g in snd r = LVal (lik (fst r)).
+
+Lemma in_combine_vals_inv (l : list path) qs c v : In (c, v) (combine l (vals qs)) -> exists q, v = V q /\ In (c, q) (combine l qs).
+Proof.
+  revert qs. induction l as [|x l IH]; intros [|y qs]; cbn; try tauto.
+  intros [E|H]; [injection E as <- <-; exists y; split; [reflexivity | left; reflexivity]|].
+  destruct (IH qs H) as (q & -> & Hq). exists q. split; [reflexivity | right; exact Hq].
+Qed.
+
+Lemma mid_lit_accept ml named qs : m_names_ok ml = true -> m_spread_valid ml -> NoDup named -> incl named (m_names ml) ->
+  length qs = length named -> mixing_kw_ok ml named -> lit_accepts ml named qs ->
+  exists m', m_set_params ml [] (combine named (vals qs)) = (m', Some []).
+Proof.
+  intros Hsafe [Hev Hmv] Hnd Hincl Hlen Hmk [Hu Hd].
+  pose proof (safe_names_ok_mid ml Hsafe) as Hok'. unfold m_names in Hincl. rewrite safe_items_mid in Hincl.
+  assert (Hkeys : map fst (combine named (vals qs)) = named) by (apply combine_vals_keys, Hlen).
+  apply (mid_kw_accept ml (combine named (vals qs)) Hsafe).
+  - rewrite Hkeys. exact Hnd.
+  - rewrite Hkeys. intros c Hc. apply (mid_nform ml c Hok'), Hincl, Hc.
+  - rewrite Hkeys. exact Hmk.
+  - intros c v Hin Hnd'. destruct (in_combine_vals_inv named qs c v Hin) as (q & -> & Hq). exists q. split; [reflexivity | apply (Hu c q Hq Hnd')].
+  - exact Hev.
+  - exact Hmv.
+  - exact Hd.
+Qed.
+
+Theorem midline_literal_subset_accepted : C17_midline_literal_subset_accepted_stmt.
+Proof.
+  intros ml named qs Hsafe Hval Hnd Hincl Hlen Hmk Hacc.
+  destruct (mid_lit_accept ml named qs Hsafe Hval Hnd Hincl Hlen Hmk Hacc) as (m' & Hset).
+  pose proof (safe_names_ok_mid ml Hsafe) as Hok'.
+  unfold set_named_params, named_params. cbn [ns_model ns_named mk_nstate].
+  rewrite (param_names_items _ _ (mid_param_items ml Hok')). cbn [map forallb].
+  assert (Ekw : named_kwargs named (vals qs) [] = combine named (vals qs)).
+  { unfold named_kwargs. cbn [kw_update fold_left]. apply dict_of_NoDup_id, combine_keys_NoDup, Hnd. }
+  rewrite Ekw. cbn [set_params]. rewrite Hset. reflexivity.
+Qed.
+
+Theorem midline_literal_subset_complete : C17_midline_literal_subset_complete_stmt.
+Proof.
+  intros ml named qs Hsafe Hval Hnd Hincl Hlen Hmk Hacc.
+  pose proof (midline_literal_subset_accepted ml named qs Hsafe Hval Hnd Hincl Hlen Hmk Hacc) as Hret.
+  destruct (set_named_params (mk_nstate (MMid ml) (Some named)) (vals qs) []) as [s' o] eqn:E. cbn [snd] in Hret. subst o.
+  exists s'. split; [reflexivity|].
+  pose proof (safe_names_ok_mid ml Hsafe) as Hok'. unfold m_names in *. rewrite safe_items_mid in *.
+  apply (midline_literal_subset_roundtrip ml named qs s' (mid_items ml) (safe_set_ok_mid ml Hsafe) (mid_param_items ml Hok') Hnd Hincl Hlen Hmk E).
+Qed.
+
+Theorem midline_named_subset_accepted : C12_midline_named_subset_accepted_stmt.
+Proof.
+  intros R lik m names v g Hsafe Hval Hnd Hincl Hlen Hg Hmk Hacc r. subst r.
+  destruct (mid_lit_accept m names v Hsafe Hval Hnd Hincl Hlen Hmk Hacc) as (m' & Hset).
+  rewrite (mid_named_given R lik m names v g (safe_names_ok_mid m Hsafe) Hnd Hlen Hg). rewrite Hset. reflexivity.
+Qed.
+
+(** boolean forms of the two hypotheses, for concrete objects *)
+Definition all_leaf_ids : list leaf_id := [LCentralIpsi; LCentralContra; LExtIpsi; LExtContra; LNoextIpsi; LNoextContra].
+Definition m_spread_validb (ml : midline) : bool :=
+  forallb (fun l => match ml_leaf ml l with Some u => forallb edge_vals_ok (u_edges u) | None => true end) all_leaf_ids
+  && match ml_mixing ml with Some cur => in_unit cur | None => true end.
+Definition lit_acceptsb (ml : midline) (named : list path) (qs : list Qc) : bool :=
+  forallb (fun nq => memp (fst nq) (map fst (u_dist_items (ml_ei ml))) || in_unit (snd nq)) (combine named qs)
+  && forallb (fun u => is_some (dists_put (u_maxt u) (u_dists u)
+                                   (plan (fun K => kw_get K (combine named (vals qs))) (u_dist_items u) []))) (m_unis ml).
+Lemma m_spread_validb_ok ml : m_spread_validb ml = true -> m_spread_valid ml.
+Proof.
+  unfold m_spread_validb. rewrite andb_true_iff, forallb_forall. intros [H1 H2]. split.
+  - intros l u Hl. specialize (H1 l). rewrite Hl in H1. apply H1. destruct l; cbn; tauto.
+  - intros cur E. rewrite E in H2. exact H2.
+Qed.
+Lemma lit_acceptsb_ok ml named qs : lit_acceptsb ml named qs = true -> lit_accepts ml named qs.
+Proof.
+  unfold lit_acceptsb. rewrite andb_true_iff, !forallb_forall. intros [H1 H2]. split.
+  - intros n q Hin Hnd. specialize (H1 (n, q) Hin). cbn [fst snd] in H1. apply orb_true_iff in H1. destruct H1 as [H1|H1]; [|exact H1].
+    exfalso. apply Hnd, memp_In, H1.
+  - intros u Hu. specialize (H2 u Hu). destruct (dists_put _ _ _); [discriminate | discriminate H2].
 Qed.
